@@ -779,7 +779,17 @@ class Frame:
                 return o.load_slice(self, lo, hi, e)
             if isinstance(o, (list, tuple)) and all(x is None or isinstance(x, int) for x in (lo, hi)):
                 return o[lo:hi]
-            raise AnalysisError("engine B: unsupported slice %r[%r:%r]" % (o, lo, hi))
+            if isinstance(o, list) and o and lo in (None, 0) and isinstance(hi, Aff) and hasattr(self.ev, "list_times") \
+                    and all(isinstance(x, int) and x == o[0] for x in o):
+                # a block of one repeated byte cut at a symbolic length: Python clamps silently at both ends
+                if not B.decide_ge0(hi, "slice bound >= 0"):
+                    if not B.decide_ge0(hi + len(o), "slice bound >= -len"):
+                        return []
+                    hi = hi + len(o)
+                if B.decide_ge0(Aff(len(o)) - hi, "slice bound <= len(block)"):
+                    return self.ev.list_times(self, [o[0]], hi, e)
+                return list(o)
+            raise AnalysisError("engine B: unsupported slice %s[%r:%r]" % ("<%d-element list>" % len(o) if isinstance(o, (list, tuple)) else repr(o), lo, hi))
         k = self.expr(e.slice)
         if isinstance(o, dict):
             kk = _dkey(k)
@@ -950,6 +960,86 @@ def _list_method(fr, o, attr, args, node):
         return None
     if attr == "copy":
         return list(o)
+    # byte strings are lists of ints/forms in this interpreter: the bytes/bytearray methods that keep them so
+    def byte_of(x):
+        if isinstance(x, list) and len(x) == 1:
+            x = x[0]
+        if isinstance(x, Aff):
+            c = B.const_of(x)
+            x = int(c) if c is not None else x
+        if isinstance(x, int) and not isinstance(x, bool):
+            return x
+        raise AnalysisError("engine B: list.%s with argument %r" % (attr, x))
+    if attr in ("find", "index"):
+        needle = byte_of(args[0])
+        start = args[1] if len(args) > 1 else 0
+        if isinstance(start, Aff):
+            c = B.const_of(start)
+            if c is None:
+                raise AnalysisError("engine B: list.%s with a symbolic start" % attr)
+            start = int(c)
+        for i in range(max(0, start), len(o)):
+            if fr.compare(ast.Eq(), o[i], needle, node):
+                return i
+        if attr == "find":
+            return -1
+        raise PyRaise("ValueError", node)
+    if attr == "count":
+        needle = byte_of(args[0])
+        return sum(1 for x in o if fr.compare(ast.Eq(), x, needle, node))
+    if attr == "translate":
+        table = args[0]
+        if not (isinstance(table, list) and len(table) == 256 and all(isinstance(x, int) for x in table)):
+            raise AnalysisError("engine B: translate() with a table that is not a concrete 256-entry table")
+        runs = []
+        for x in range(256):
+            d = table[x] - x
+            if runs and runs[-1][2] == d:
+                runs[-1][1] = x
+            else:
+                runs.append([x, x, d])
+        out = []
+        for v in o:
+            if isinstance(v, int):
+                out.append(table[v])
+                continue
+            for lo, hi, d in runs:
+                if B.decide_ge0(Aff.of(v) - lo, "translate: value >= %d" % lo) and B.decide_ge0(Aff(hi) - Aff.of(v), "translate: value <= %d" % hi):
+                    out.append(Aff.of(v) + d)
+                    break
+            else:
+                raise B.DeadPath()
+        return out
+    if attr in ("ljust", "rjust"):
+        width = args[0]
+        if isinstance(width, Aff):
+            c = B.const_of(width)
+            if c is None:
+                raise AnalysisError("engine B: list.%s with a symbolic width" % attr)
+            width = int(c)
+        fill = byte_of(args[1]) if len(args) > 1 else 0x20
+        pad = [fill] * max(0, width - len(o))
+        return list(o) + pad if attr == "ljust" else pad + list(o)
+    if attr in ("lstrip", "rstrip", "strip"):
+        chars = args[0] if args else [9, 10, 11, 12, 13, 32]
+        if not (isinstance(chars, list) and all(isinstance(c, int) for c in chars)):
+            raise AnalysisError("engine B: list.%s(%r)" % (attr, chars))
+        out = list(o)
+
+        def strippable(x):
+            r = False
+            for c in chars:
+                if fr.compare(ast.Eq(), x, c, node):
+                    r = True
+                    break
+            return r
+        if attr in ("lstrip", "strip"):
+            while out and strippable(out[0]):
+                out.pop(0)
+        if attr in ("rstrip", "strip"):
+            while out and strippable(out[-1]):
+                out.pop()
+        return out
     raise AnalysisError("engine B: list method %s" % attr)
 
 
